@@ -561,3 +561,144 @@ func ruleFailedOpenUnregisters(c *Check, a *Analysis, rule string) {
 		c.Ob(rule, "(*Conn).NewStream#failed open is unregistered", p.InstrPos(e.to.Instrs[0]), !miss, ifs(miss, "a rejected stream open returns without the close round trip that removes its entries from Conn.pending and Conn.streams ("+p.lineTrail(tr)+"): NumCalls stays non-zero for ever and housekeeping never retires or closes the otherwise unused connection"))
 	}
 }
+
+// ---- F12: a one-worker queue is closed only once it is idle.
+//
+// scheduler.Close() runs the tasks that are still queued in the CALLER's goroutine while the
+// queue's worker may still be executing an earlier task: closing a queue that is not idle runs
+// its tasks concurrently with, and ahead of, the running one. For the queues that are fed by a
+// connection's reader this breaks the one-at-a-time, in-order guarantee at the end of the
+// connection and lets two decode tasks touch the per-connection stream table at once.
+
+// barrierBefore: before `at`, on every path, a barrier task was queued on q and awaited:
+// q.Schedule(func() { close(ch) / ch <- … }) followed by <-ch.
+func barrierBefore(p *Prog, fn *ssa.Function, q ssa.Value, at ssa.Instruction) bool {
+	// the receives that await a barrier task queued on q
+	awaits := map[ssa.Instruction]bool{}
+	eachInstr(fn, func(in ssa.Instruction) {
+		cc, ok := in.(*ssa.Call)
+		if !ok || !cc.Common().IsInvoke() || cc.Common().Method.Name() != "Schedule" || !sameQueue(p, cc.Common().Value, q) {
+			return
+		}
+		mc, ok := p.canon(unwrap(cc.Common().Args[0])).(*ssa.MakeClosure)
+		if !ok {
+			return
+		}
+		var chans []ssa.Value
+		eachInstr(mc.Fn.(*ssa.Function), func(x ssa.Instruction) {
+			switch y := x.(type) {
+			case *ssa.Call:
+				if calleeName(y) == "builtin close" {
+					chans = append(chans, p.canon(y.Call.Args[0]))
+				}
+			case *ssa.Send:
+				chans = append(chans, p.canon(y.Chan))
+			}
+		})
+		eachInstr(fn, func(x ssa.Instruction) {
+			u, ok := x.(*ssa.UnOp)
+			if !ok || u.Op != token.ARROW {
+				return
+			}
+			for _, ch := range chans {
+				if p.canon(u.X) == ch && p.dominatesInstr(in, x) {
+					awaits[x] = true
+				}
+			}
+		})
+	})
+	if len(awaits) == 0 {
+		return false
+	}
+	// every path from the entry to `at` on which the queue exists passes such a receive
+	cut := map[edge]bool{}
+	if fr, _, isF := fieldOfLoad(p.canon(q)); isF {
+		cut, _ = p.guardEdges(fn, matchFieldNilAny(p, fr.Field))
+	}
+	_, _, reach := p.reachCut(fn, nil, func(x ssa.Instruction) bool { return x == at }, func(x ssa.Instruction) bool { return awaits[x] }, cut)
+	return !reach
+}
+
+func ruleQuiesceBeforeClose(c *Check, a *Analysis, rule string) {
+	p := c.P
+	c.Rule(rule, "a one-worker queue fed by a connection's reader (the decode queue of ServeCodec, of the poll-mode callback and of the client reader; the client's completion queue and stream queue) is closed — and the client's terminal sweep is run — only after a barrier task queued on it has been awaited: scheduler.Close runs the still-queued tasks in the caller, concurrently with and ahead of the task its worker is executing", 5)
+	sc := siteCounter{}
+	n := 0
+	check := func(fn *ssa.Function, q ssa.Value, at ssa.Instruction, what string) {
+		n++
+		ok := barrierBefore(p, fn, q, at)
+		// a queue that exists only in some modes: the nil edge needs no barrier
+		if !ok {
+			if fr, _, isF := fieldOfLoad(p.canon(q)); isF {
+				if g, _ := p.guardedBy(at, matchFieldNilAny(p, fr.Field)); g {
+					ok = true
+				}
+			}
+		}
+		c.Ob(rule, sc.key(fn, what+": barrier awaited before Close"), p.InstrPos(at), ok, ifs(!ok, what+" is closed while tasks may still be queued behind the one its worker is running: Close runs them in this goroutine at the same time — requests of a pipelined connection execute concurrently and out of order, two decode tasks race on the connection's stream table (fatal 'concurrent map writes'), completions are signalled out of order"))
+	}
+	// server: decode queues
+	for _, fn := range p.Fns {
+		if !strings.HasPrefix(fname(topParent(fn)), "(*Server).") {
+			continue
+		}
+		var q ssa.Value
+		for _, ev := range eventsOf(fn, "(*Server).ServeRequest") {
+			if cc, ok := ev.(*ssa.Call); ok && cc.Common().IsInvoke() && cc.Common().Method.Name() == "Schedule" {
+				q = p.canon(cc.Common().Value)
+			}
+		}
+		if q == nil {
+			continue
+		}
+		// the Close of that queue, wherever in the family of the top-level function it is
+		for _, f := range withClosures(topParent(fn)) {
+			eachInstr(f, func(in ssa.Instruction) {
+				cc, ok := in.(*ssa.Call)
+				if !ok || !cc.Common().IsInvoke() || cc.Common().Method.Name() != "Close" || !sameQueue(p, cc.Common().Value, q) {
+					return
+				}
+				if in.Parent() != f && !p.isPlainHelper(in.Parent()) {
+					return
+				}
+				check(f, cc.Common().Value, in, "the server's decode queue")
+			})
+		}
+	}
+	// client reader
+	var recv *ssa.Function
+	for _, s := range p.storesToField("Conn", "shutdown") {
+		recv = s.Fn
+	}
+	if recv == nil {
+		c.Undecided(rule, "client reader not found")
+		return
+	}
+	var q ssa.Value
+	for _, ev := range eventsOf(recv, "(*Conn).read") {
+		if cc, ok := ev.(*ssa.Call); ok && cc.Common().IsInvoke() && cc.Common().Method.Name() == "Schedule" {
+			q = p.canon(cc.Common().Value)
+		}
+	}
+	if q == nil {
+		c.Undecided(rule, "the client reader's decode queue was not identified")
+	} else {
+		eachInstr(recv, func(in ssa.Instruction) {
+			cc, ok := in.(*ssa.Call)
+			if ok && cc.Common().IsInvoke() && cc.Common().Method.Name() == "Close" && sameQueue(p, cc.Common().Value, q) {
+				check(recv, cc.Common().Value, in, "the client reader's decode queue")
+			}
+		})
+	}
+	for _, f := range []string{"readSched", "readStream"} {
+		eachInstr(recv, func(in ssa.Instruction) {
+			cc, ok := in.(*ssa.Call)
+			if ok && cc.Common().IsInvoke() && cc.Common().Method.Name() == "Close" && isLoadOf(p.canon(cc.Common().Value), "Conn", f) {
+				check(recv, cc.Common().Value, in, "Conn."+f)
+			}
+		})
+	}
+	if n < 5 {
+		c.Undecided(rule, "expected five reader-fed queues closed at connection end (two server decode queues, the client's decode, completion and stream queues)")
+	}
+}
